@@ -55,7 +55,7 @@ ENGINES["plugins"] = dict(
 ENGINES["file"] = dict(
     drv="file", starts=("freset",), diverge_owner=lambda line, pid, msg: pid != "C19",   # C19 only reads "cannot be put on the wire" off this engine
     trivial=r"^(fq4 .* => pass$)|(fq6 .* => pass$)",
-    branches=["fsetup4.ok", "fsetup4.rejected", "fsetup6.ok", "fsetup6.rejected", "fwrite.good", "fwrite.bad", "fq4.listed", "fq4.pass",
+    branches=["fsetup4.ok", "fsetup4.rejected", "fsetup6.ok", "fsetup6.rejected", "fwrite.good", "fwrite.bad", "fmove.good", "fmove.bad", "fq4.listed", "fq4.pass",
               "fq6.listed", "fq6.pass", "fq6.no-iana", "fq6.no-mac", "file.comment-line", "file.empty-line", "file.duplicate-mac"],
 )
 
@@ -346,6 +346,8 @@ GEN_THEOREMS = {
     "C07": ("CoreDhcp.Props.GenAlloc4", ["GEN_a4_allocate_eq", "GEN_a4_toOffset_eq"]),
 }
 GEN_THEOREMS_MORE = [
+    # setupFile of plugins/file regenerated (unit filesetup): arguments, initial load, the autorefresh watcher and its goroutine, the handlers returned
+    ("C10", "CoreDhcp.Props.GenFileSetup", ['GEN_filesetup_setup_eq', 'GEN_filesetup_refresh_eq', 'GEN_filesetup_reg_eq', 'FILESETUP_watches_the_configured_name', 'FILESETUP_every_event_reloads', 'FILESETUP_failed_reload_keeps_watching', 'FILESETUP_serves_own_table', 'FILESETUP_no_autorefresh_no_watcher', 'FILESETUP_initial_load_error_aborts', 'FILESETUP_refresh_is_load', 'FILESETUP_later_good_version_picked_up', 'FILESETUP_replaced_file_is_watched_again', 'FILESETUP_watch_survives_replacements']),
     # the receive side of server/handle.go regenerated (unit serveloop): buffer pool, both Serve loops, the buffer hand-back in HandleMsg4/6
     ("C16", "CoreDhcp.Props.GenServeLoop", ['GEN_serve_pool_new', 'GEN_serve_iter6_eq', 'GEN_serve_iter4_eq', 'GEN_serve_head6_eq', 'GEN_serve_head4_eq', 'GEN_serve_code_eq', 'SERVE_reads_full_buffer', 'SERVE_spawn_own_values', 'SERVE_spawn_own_values_run', 'SERVE_one_spawn_per_datagram', 'SERVE_one_spawn_per_datagram_run', 'SERVE_buffer_back_once', 'SERVE_buffer_back_once_gen', 'SERVE_no_two_owners', 'SERVE_no_two_owners_gen', 'SERVE_no_two_owners_apart', 'SERVE_read_into_unshared']),
     ("C01", "CoreDhcp.Props.GenServeLoop", ['GEN_serve_code_eq', 'SERVE_no_two_owners_gen', 'SERVE_one_spawn_per_datagram']),
